@@ -108,14 +108,22 @@ class TableMachine:
         ]
         self.seed_list.extend(extra)
         self.n_extra = len(extra)
+        # the same shapes with every wrapper cache populated first
+        self.preread = []
+        for i in (0, 47, 76):
+            self.preread.append({**fam[i], "preread": True})
+        for e in (extra[3], extra[4], extra[5]):
+            self.preread.append({**e, "preread": True})
         self.file_seeds = []
         for fn, idx in (("simple_table.ods", 0), ("styled_table.ods", 0), ("test_col_cell.ods", 0)):
             self.seed_list.append({"kind": "file", "file": fn, "table": idx})
+        self.n_files = 3
+        self.seed_list.extend(self.preread)
 
     def select_seeds(self, which):
         n = len(self.seed_list)
         if which == "all":
-            return list(range(n))
+            return list(range(n - len(self.preread)))
         if which == "xmlctor":
             return list(range(self.n_family + self.n_extra))
         if which == "rep":
@@ -129,7 +137,9 @@ class TableMachine:
         if which == "rep3":
             return [0, 47, self.n_family + 3]
         if which == "files":
-            return list(range(self.n_family + self.n_extra, n))
+            return list(range(self.n_family + self.n_extra, self.n_family + self.n_extra + self.n_files))
+        if which == "preread":
+            return list(range(n - len(self.preread), n))
         raise ValueError(which)
 
     # ------------------------------------------------------------ build
@@ -144,6 +154,10 @@ class TableMachine:
             st.table = Element.from_tag(table_xml(seed))
             mat = spec_matrix(seed)
             st.model = GridModel(mat, sum(seed["cols"]))
+            if seed.get("preread"):
+                # every row / cell / column wrapper cached before the history starts
+                self._apply_impl(st.table, ("read_all",))
+                self._apply_impl(st.table, ("read_columns",))
         elif seed["kind"] == "ctor":
             w, h = seed["width"], seed["height"]
             if w is None:
@@ -217,6 +231,7 @@ class TableMachine:
                     ops.append(("set_column_cells", x, 8, 2))
         for k in ks:
             ops.append(("append_column", k))
+        ops.append(("rstrip",))
         ops.append(("set_values", [[7, 8], [9, 7]], 0, 0))
         ops.append(("set_values", [[7, 8], [], [9]], 1, 1))
         ops.append(("set_cells", [[(8, 2)], [(9, 1), (7, 2)]], 0, max(H - 1, 0)))
@@ -405,6 +420,8 @@ class TableMachine:
             t.extend_rows([self._row(items, k) for items, k in op[1]])
         elif name == "clear":
             t.clear()
+        elif name == "rstrip":
+            t.rstrip()
         elif name == "row_repeated":
             r = t.get_row(op[1], clone=False)
             r.repeated = op[2]
@@ -475,6 +492,8 @@ class TableMachine:
             m.extend_rows([([v for v, kk in items for _ in range(kk)], k) for items, k in op[1]])
         elif name == "clear":
             m.clear()
+        elif name == "rstrip":
+            m.rstrip()
         elif name == "row_repeated":
             if "rowrun" in pre:
                 s, old = pre["rowrun"]
@@ -588,8 +607,15 @@ class TableMachine:
         if c01:
             if prop == "C01":
                 fail(c01[0], c01[1], c01[2], c01[3])
-            else:
+            elif st.exc:
                 st.diverged = True  # pruned here, reported by the C01 run
+            else:
+                # the document itself left the model: pruned here, reported by the C01 run.  When only the
+                # reading through cached wrappers is off (the XML still says what the model says) the
+                # history goes on: stale wrappers are what later writes go through (C07), C02 reports them.
+                ro = self.obs_reader(TR.parse_fragment(t.serialize()))
+                if self._first_diff(ro, {k: em.get(k) for k in ro}):
+                    st.diverged = True
         if prop == "C02" and not st.exc:
             xml = t.serialize()
             try:
